@@ -68,6 +68,16 @@ ENGINES["kvsim"] = {
                               "faultstore for failing writes", "indexer = no-op"]},
 }
 
+ENGINES["delsim"] = {
+    "serves": ["C15"],
+    "kind": "single-goroutine event loop over 2-3 real space nodes (settings object, deletion state, deletion manager with its delete-loop goroutine on the fake clock, head index) with a simulated head-update network, scheduler-released deleter steps and restarts",
+    "real_vs_stub": {"real": ["deletionstate", "deletionmanager (deleter, delete loop via periodicsync on the fake clock)", "settings.SettingsObject + settingsstate (state builder, change factory)", "synctree / objecttree (PutSyncTree, BuildSyncTreeOrGetRemote, treeRemoteGetter, Delete)",
+                              "headsync.DiffManager + app/ldiff fed by the head-storage observer", "headstorage, spacestorage, acl list, any-store on tmpfs"],
+                     "stub": ["tree manager (harness cache over the real build/put functions; DeleteTree is a blocking point the scheduler releases, honouring cancellation)",
+                              "transport: harness SyncClient; head updates cross as bytes through a message pool (any order, dropped, duplicated); requests are served at once",
+                              "account / space-state components; sync status = no-op; object-sync dispatch replaced by the event loop"]},
+}
+
 PROPS = {
     "C01": {
         "engine": "treesim",
@@ -288,6 +298,25 @@ PROPS = {
         "technique": "deterministic simulation: seeded task scheduler over the real stream pool goroutines (synctest bubble, yield hooks), fake streams with write failures / permanently blocked writes / remote closes; non-blocking, FIFO, bounded-queue, index-consistency and drain oracles",
         "level_text": "Seeded exploration of interleavings of callers, write loops, read loops, dial workers and stream opening in the real pool, with stuck, failing and closing peers; oracles after every scheduler grant and after faults stop.",
         "level_note": "streampool and mb queues real; streams, peers, handler are harness stubs; scheduler granularity = yield points",
+        "expected_probes": [],
+    },
+    "C15": {
+        "engine": "delsim",
+        "level": "exploration",
+        "budget": {"quick": 60, "thorough": 900},
+        "rule": "one run = 2-3 nodes of one space (own any-store, own writer account), 15-70 events: create an object or a child bound (derived root with ParentId) to an existing object on any node, edit, DeleteObject through the settings object on any node (deletion records plain or snapshot at a seeded 0/20/50% rate), "
+                "head updates of settings and object trees delivered in any order / dropped / duplicated (unknown trees are fetched from the sender through the real remote getter), one step of a node's delete worker (it blocks before every object until the scheduler releases it), the worker's 20 s tick on the fake clock, "
+                "restart of a node from its store (also while the worker is between 'queued' and 'deleted' or between two objects of a pass), a deletion recorded locally in the deletion state without the settings log, and resurrection attempts for ids whose deletion the node has recorded: PutSyncTree of the original root, fetch from a peer that still stores the tree, late head updates. "
+                "Oracles after every event on the touched node: the deleted-status of every object is monotone (also across restarts); the deletion state never forgets an id; a tombstoned id is not in the head index (DiffManager.AllIds); after status Deleted no change rows remain; put fails with ErrTreeStorageAlreadyDeleted and fetch fails; "
+                "a stored child of a parent whose deletion was carried out is at least queued; every 5 events and at the end: the node's deletion state covers the set derived from scratch from its settings log (BuildHistoryTree + StateBuilder.Build), and nodes with equal settings logs derive equal sets. "
+                "a head update for a tombstoned id that is not stored must not bring rows or an open tree back; a child whose storage is created after its parent's deletion was recorded is queued at once. "
+                "After heal (all up, everything delivered, settings synced pairwise, workers run to completion) every deletion recorded in the log is carried out; after one more restart of every node and a complete worker run nothing is left merely queued. evaluations = node checks. "
+                "The worker's 20 s tick is only fired while every worker is idle, and the order in which a pass visits the queued ids (map order in the code, made a seeded permutation by the verif hook) is a function of a per-step salt: a cancelled worker with a pending notification starts or skips one more abandoned pass by Go's random select, which must not consume choices.",
+        "assumptions": COMMON_ASSUMPTIONS + ["a locally stored tree whose deletion is queued but not yet carried out can still be opened locally (the delete worker itself needs that); 'fetching fails' is asserted for ids not stored locally",
+                                             "the tree manager is the harness's; MarkTreeDeleted is a no-op as in the node implementations"],
+        "technique": "deterministic simulation: seeded interleaving of creations, child creations, deletion records, head-update delivery orders with loss/duplication, delete-worker steps, fake-clock ticks, restarts and resurrection attempts over real nodes; monotone-tombstone, not-advertised, refusal and derived-set oracles after every event, completion after heal",
+        "level_text": "Seeded exploration of histories x schedules x restart points over the real deletion stack; oracles written from the property text are evaluated after every event and after a heal phase.",
+        "level_note": "deletion state/manager, settings object, sync trees, head index and storage are real; tree manager and transport are harness stubs",
         "expected_probes": [],
     },
     "C20": {
